@@ -74,6 +74,8 @@ enum SrvEvent {
     Exited(u64),
     Saturation,
     Panic,
+    /// a frame that is not an observation (control frame, a handler's own push)
+    Nothing,
 }
 
 struct Shared {
@@ -85,6 +87,9 @@ struct Shared {
     /// armed by a `hook` step: what the `on_error` hook does when the next Saturation is reported
     /// (it runs on the reader, between "no slot free" and the rest of the refusal)
     hook_plan: Mutex<Option<Vec<(u64, Cmd)>>>,
+    serve_mode: AtomicU64,
+    /// notifications the ctx handlers pushed to their own peer on entry (re-entering the API from a handler)
+    self_pushes: AtomicU64,
 }
 
 impl Shared {
@@ -157,7 +162,15 @@ fn make_router(sh: &Arc<Shared>, mw: bool) -> Router {
     let (a, b, c, d) = (sh.clone(), sh.clone(), sh.clone(), sh.clone());
     let r = Router::new()
         .with_json_blocking("/hold", move |v: Value| hold(&a, v["k"].as_u64().unwrap_or(0)))
-        .with_json_ctx_blocking("/hold_ctx", move |_ctx: &CallContext, v: Value| hold(&b, v["k"].as_u64().unwrap_or(0)))
+        .with_json_ctx_blocking("/hold_ctx", move |ctx: &CallContext, v: Value| {
+            // the handler calls back into its own connection before it parks
+            if let Some(p) = ctx.peer() {
+                if p.send_notify("/evt", repe::NotifyBody::Json(b"1".to_vec())).is_ok() {
+                    b.self_pushes.fetch_add(1, Ordering::SeqCst);
+                }
+            }
+            hold(&b, v["k"].as_u64().unwrap_or(0))
+        })
         .with_typed_blocking::<KIn, Value, _>("/hold_typed", move |i: KIn| -> Result<Value, (ErrorCode, String)> { hold(&c, i.k) })
         .with_typed_ctx_blocking::<KIn, Value, _>("/hold_tctx", move |_ctx: &CallContext, i: KIn| -> Result<Value, (ErrorCode, String)> { hold(&d, i.k) })
         .with_erased_handler("/hold_erased", Arc::new(ErasedHold(sh.clone())))
@@ -177,7 +190,7 @@ struct Srv {
 }
 
 fn build_server(cap: Option<usize>, mw: bool, ocap: Option<usize>, dflt: bool) -> (WebSocketServer, Arc<Shared>) {
-    let sh = Arc::new(Shared { gauge: AtomicI64::new(0), max_gauge: AtomicI64::new(0), gates: Mutex::new(HashMap::new()), events: Mutex::new(None), mw_calls: AtomicU64::new(0), hook_plan: Mutex::new(None) });
+    let sh = Arc::new(Shared { gauge: AtomicI64::new(0), max_gauge: AtomicI64::new(0), gates: Mutex::new(HashMap::new()), events: Mutex::new(None), mw_calls: AtomicU64::new(0), hook_plan: Mutex::new(None), serve_mode: AtomicU64::new(0), self_pushes: AtomicU64::new(0) });
     let sh2 = sh.clone();
     let mut server = WebSocketServer::new(make_router(&sh, mw));
     if !dflt {
@@ -222,8 +235,40 @@ async fn start_server(cap: Option<usize>, mw: bool, ocap: Option<usize>, dflt: b
         let (server, sh) = build_server(cap, mw, None, dflt);
         let l = TcpListener::bind("127.0.0.1:0").await.unwrap();
         let addr = l.local_addr().unwrap();
+        // every public way of serving reaches the same per-connection code: pick one per server
+        let mode = (cap.unwrap_or(0) + 2 * mw as usize + 5 * dflt as usize) % 5;
+        sh.serve_mode.store(mode as u64, Ordering::SeqCst);
         tokio::spawn(async move {
-            let _ = server.serve_listener(l, "/repe").await;
+            match mode {
+                0 => {
+                    let _ = server.serve_listener(l, "/repe").await;
+                }
+                1 => {
+                    let _ = server.serve_listener_with_shutdown(l, "repe/", std::future::pending::<()>()).await;
+                }
+                2 => {
+                    let _ = server.serve_listener_with_graceful_drain(l, "/repe", std::future::pending::<()>(), Duration::from_secs(5)).await;
+                }
+                _ => {
+                    // an embedder-owned accept loop
+                    let shared = server.into_shared();
+                    let token = repe::websocket_server::ShutdownToken::new();
+                    loop {
+                        let Ok((stream, _)) = l.accept().await else { break };
+                        let (shared, token) = (shared.clone(), token.clone());
+                        tokio::spawn(async move {
+                            if mode == 3 {
+                                if let Ok(ws) = shared.accept(stream, "/repe").await {
+                                    let _ = shared.serve_connection(ws).await;
+                                }
+                            } else if let Ok((ws, hs)) = shared.accept_with_handshake(stream, "/repe").await {
+                                let _ = hs;
+                                let _ = shared.serve_connection_with_cancel(ws, &token).await;
+                            }
+                        });
+                    }
+                }
+            }
         });
         return Srv { addr, sh };
     }
@@ -312,6 +357,7 @@ struct Conn {
     orphans: BTreeSet<u64>,
     answered: BTreeMap<u64, u32>,
     notifies: BTreeSet<u64>,
+    evt_frames: u64,
 }
 
 enum Seen {
@@ -333,12 +379,17 @@ impl Conn {
                 None => Seen::Closed("connection closed".into()),
                 Some(Err(e)) => Seen::Closed(format!("connection error: {e}")),
                 Some(Ok(WsMsg::Binary(b))) => match RawFrame::parse_prefix(&b) {
+                    // what a ctx handler pushed to its own peer on entry: not an observation of this family
+                    Some((f, n)) if n == b.len() && f.h.notify != 0 && f.query == b"/evt" => {
+                        self.evt_frames += 1;
+                        Seen::Event(SrvEvent::Nothing)
+                    }
                     Some((f, n)) if n == b.len() => Seen::Frame(f),
                     _ => Seen::Closed("malformed binary message".into()),
                 },
                 Some(Ok(WsMsg::Close(_))) => Seen::Closed("connection closed".into()),
                 // control frames are not observations
-                Some(Ok(_)) => Seen::Event(SrvEvent::Exited(u64::MAX)),
+                Some(Ok(_)) => Seen::Event(SrvEvent::Nothing),
             },
             _ = tokio::time::sleep(left) => Seen::Timeout,
         }
@@ -374,7 +425,24 @@ fn request_frame_in(id: u64, blocking: bool, notify: bool, ec: u32, burst: bool)
 fn request_frame(id: u64, blocking: bool, notify: bool, ec: u32) -> RawFrame {
     if blocking {
         let route = BLOCKING_ROUTES[(id % 5) as usize];
-        RawFrame::request(id, notify, 1, route.as_bytes(), 2, serde_json::to_vec(&json!({ "k": id })).unwrap().as_slice())
+        // body shape by id: plain, padded (1 KiB / 40 KiB of ignored field, also non-ASCII), Utf8-framed JSON
+        let h = fnv(&id.to_le_bytes());
+        let body = match h % 6 {
+            0 => json!({ "k": id, "pad": "p".repeat(1024) }),
+            1 => json!({ "k": id, "pad": "é✓".repeat(8000) }),
+            2 => json!({ "pad": [1, 2, 3], "k": id }),
+            _ => json!({ "k": id }),
+        };
+        let bfmt = if h % 7 == 3 { 3 } else { 2 };
+        let mut f = RawFrame::request(id, notify, 1, route.as_bytes(), bfmt, serde_json::to_vec(&body).unwrap().as_slice());
+        // a notify byte other than 1 is not a notify
+        if !notify && h % 5 == 1 {
+            f.h.notify = if h % 2 == 0 { 2 } else { 255 };
+        }
+        if h % 9 == 4 {
+            f.h.reserved = 0xDEAD_BEEF;
+        }
+        f
     } else if ec == 0 {
         RawFrame::request(id, notify, 1, b"/ping", 2, b"null")
     } else {
@@ -833,6 +901,9 @@ impl Gen {
     fn arrive(&mut self, blocking: bool, notify: bool, ec: u32) -> u64 {
         self.next_id += 1;
         let id = self.next_id;
+        self.arrive_id(id, blocking, notify, ec)
+    }
+    fn arrive_id(&mut self, id: u64, blocking: bool, notify: bool, ec: u32) -> u64 {
         self.ops.push(Op::Arrive { id, blocking, notify, ec });
         if blocking && self.cap.map(|c| self.running.len() < c).unwrap_or(true) {
             self.running.push(id);
@@ -939,9 +1010,9 @@ fn order_script(cap: usize, mw: bool, base: u64, order: &[usize], kinds: &[Cmd],
 /// parked one by one, then a burst written in one piece: the rest of the cap, `extra` more blocking
 /// requests that must be refused (some of them notifies), inline requests with sizeable answers in
 /// between, an inline request last.  Then the usual releases and the epilogue.
-fn pressure_script(r: &mut Rng, cap: usize, mw: bool, base: u64, pre: usize, extra: usize) -> Vec<Op> {
+fn pressure_script(r: &mut Rng, cap: usize, mw: bool, base: u64, pre: usize, extra: usize, ocap: usize) -> Vec<Op> {
     let mut g = Gen::new(Some(cap), mw, base);
-    g.ops[0] = Op::Cap { cap: Some(cap), mw, ocap: Some(1), dflt: false };
+    g.ops[0] = Op::Cap { cap: Some(cap), mw, ocap: Some(ocap), dflt: false };
     for _ in 0..pre.min(cap) {
         g.arrive(true, false, 0);
     }
@@ -1005,6 +1076,37 @@ fn gen_scripts(r: &mut Rng, thorough: bool) -> Vec<Vec<Op>> {
                 scripts.push(order_script(cap, r.chance(1, 2), nb(), &order, &kinds, r));
             }
         }
+    }
+    // request ids at the ends of the range, and on both kinds of route
+    {
+        let mut g = Gen::new(Some(2), r.chance(1, 2), nb());
+        g.arrive_id(0, true, false, 0);
+        g.arrive_id(u64::MAX, true, false, 0);
+        g.arrive_id(u64::MAX - 1, true, false, 0); // refused, with that id
+        g.arrive_id(1, false, false, 0);
+        g.exit(0, Cmd::Panic(1));
+        g.arrive_id(u64::MAX - 2, true, true, 0);
+        g.exit(u64::MAX, Cmd::Err(4096));
+        g.exit_all(r);
+        g.epilogue(r);
+        scripts.push(g.ops);
+    }
+    // caps beyond the default of 16
+    for cap in if thorough { vec![17usize, 40, 100] } else { vec![17usize, 40] } {
+        let mut g = Gen::new(Some(cap), cap % 2 == 0, nb());
+        for _ in 0..cap {
+            g.arrive(true, r.chance(1, 10), 0);
+        }
+        g.arrive(true, false, 0);
+        g.arrive(true, true, 0);
+        g.arrive(false, false, 0);
+        let victim = g.running[r.below(cap as u64) as usize];
+        g.exit(victim, Cmd::Panic(5));
+        g.arrive(true, false, 0);
+        g.arrive(true, false, 0);
+        g.exit_all(r);
+        g.arrive(false, false, 0);
+        scripts.push(g.ops);
     }
     // the cap `WebSocketServer::new` sets when the embedder says nothing
     {
@@ -1078,13 +1180,13 @@ fn gen_scripts(r: &mut Rng, thorough: bool) -> Vec<Vec<Op>> {
         for cap in 1..=3usize {
             let pre = match round % 3 { 0 => cap, 1 => 0, _ => r.below(cap as u64 + 1) as usize };
             let extra = if round % 2 == 0 { 8 } else { 3 * cap + r.below(4) as usize };
-            scripts.push(pressure_script(r, cap, round % 2 == 1, nb(), pre, extra));
+            scripts.push(pressure_script(r, cap, round % 2 == 1, nb(), pre, extra, if round == 0 { 1 } else { [1usize, 2, 8][(round + cap) % 3] }));
         }
     }
     if thorough {
         for cap in [4usize, 8, 16] {
             let pre = r.below(cap as u64 + 1) as usize;
-            scripts.push(pressure_script(r, cap, false, nb(), pre, 12));
+            scripts.push(pressure_script(r, cap, false, nb(), pre, 12, 1));
         }
     }
     // random scripts: every cap 1..16 and unlimited, with and without middleware
@@ -1128,7 +1230,7 @@ async fn run_script(out: &mut Out, servers: &mut HashMap<SrvKey, Srv>, sno: usiz
             return false;
         }
     };
-    let mut c = Conn { ws, events: rx, sh: srv.sh.clone(), cap, stray: Vec::new(), parked: BTreeMap::new(), orphans: BTreeSet::new(), answered: BTreeMap::new(), notifies: BTreeSet::new() };
+    let mut c = Conn { ws, events: rx, sh: srv.sh.clone(), cap, stray: Vec::new(), parked: BTreeMap::new(), orphans: BTreeSet::new(), answered: BTreeMap::new(), notifies: BTreeSet::new(), evt_frames: 0 };
     let lines: Vec<String> = ops.iter().map(|(i, o)| op_line(i, o)).collect();
     out.config(&lines[0]);
     let _ = cap_idx;
@@ -1372,7 +1474,7 @@ fn main() {
     quiet_panics();
     let mut out = Out::new(&args.out);
     out.rule = "event scripts on one raw WebSocket connection per script against a real WebSocketServer: caps 1..16 and unlimited, routers with and without middleware, the four `_blocking` registrars and a hand-written erased handler with execution() = OffReader (by request id), arrivals up to 4x cap of blocking requests (1 in 5 a notify) interleaved with inline requests (some failing) and exits of random running handlers (return / error code / panic with 7 payload kinds: literal &str, formatted String, None.unwrap(), Err.expect(), index out of bounds, panic_any(u32), assert_eq!), every release order for caps 1..3 (thorough: with every assignment of exit kinds), pressure scripts (outbound queue of one slot, server on a current-thread runtime, caps 1..3): bursts of cap parked + 3..12 further blocking requests + inline requests with 48 KiB answers written to the socket in one piece and read only afterwards; a default-configured server (no with_offreader_limit); reconnect scripts (the client drops the connection while handlers are parked, opens a new one: its own cap-many slots, left-over handlers end later); hook scripts (the server's on_error Saturation hook releases parked handlers from inside a refusal and waits until they have left; the freed slots must then all be usable) and races (12-40 rounds of: fill the cap, write a burst of cap+2 further requests and release everything at the same moment); each script ends by releasing everything, admitting cap-many further requests, one refusal, and releasing again. Distinct by op line; non-trivial = an exit, a saturation reply/drop, or any event while handlers are parked".into();
-    let rt = tokio::runtime::Builder::new_multi_thread().worker_threads(4).max_blocking_threads(256).enable_all().build().unwrap();
+    let rt = tokio::runtime::Builder::new_multi_thread().worker_threads(4).max_blocking_threads(512).enable_all().build().unwrap();
     let mut rng = Rng::new(args.seed);
     let scripts: Vec<Vec<(String, Op)>> = match args.replay_ops() {
         Some(lines) => {
